@@ -45,11 +45,20 @@ FUNCS5B = [
     (F, None, None, "array_convert_to_comparable", "array_convert_to_comparable", "comparable"),
     (F, None, None, "object_convert_to_comparable", "object_convert_to_comparable", "comparable"),
     (F, None, None, "convert_to_comparable", "convert_to_comparable", None),
+    ("src/number.rs", "Number", "PartialEq", "eq", "Number.eq", None),
+    (F, None, None, "scalar_eq", "scalar_eq", None),
+    (F, None, None, "array_contains", "array_contains", None),
+    (F, None, None, "contains_jsonb", "contains_jsonb", "contains"),
+    (F, None, None, "contains", "contains", None),
 ]
+
+# where a type implements a trait more than once (`impl PartialEq for Number`, `impl PartialEq<&Number> for Number`):
+# the item whose signature text (tokens up to the body, joined by one blank) matches this pattern
+SELECT = {("src/number.rs", "Number", "eq"): r"other : & Self\b"}
 
 # public functions whose first statement is an `if` / `else if` chain of sniffing tests, every branch of which
 # leaves the function: branch k is the parameter `text<k>__` holding its result
-TEXT_CHAIN = {"compare": 3}
+TEXT_CHAIN = {"compare": 3, "contains": 1}
 
 # public functions without a result (`fn f(value: &[u8], buf: &mut Vec<u8>)`) that contain one statement
 # `if !is_jsonb(value) { <text branch>; return; }`: the text branch calls the JSON text parser (and the function itself
@@ -59,7 +68,15 @@ TEXT_UNIT = {"convert_to_comparable"}
 
 class FnTr5b(FnTr4):
     # -- expressions
-    def ex_mcall(self, e, want):
+    def ex_mcall0(self, e, want):
+        if e.name == "unwrap_or" and len(e.args) == 1:
+            save = self.tmp
+            ls, t, ty = self.ex(e.recv, ("res", want) if want is not None else None)
+            if ty is not None and ty[0] == "res" and ty[1] == ("bool",):
+                l1, d, _ = self.ex(e.args[0], ("bool",))
+                ls, r = self.call_res(ls + l1, "Rs.resUnwrapOr %s %s" % (self.atom(t), self.atom(d)))
+                return ls, r, ("bool",)
+            self.tmp = save
         if e.name == "saturating_add" and len(e.args) == 1:
             save = self.tmp
             ls, t, ty = self.ex(e.recv, want if (want is not None and want[0] == "int") else None)
@@ -91,6 +108,87 @@ class FnTr5b(FnTr4):
             acc = set(acc) | set(self.mutparams)
         return acc
 
+    def for_iter(self, e, it, ity, enum):
+        """as FnTr4.for_iter, also inside a recursive group: the loop is bounded by the function's `fuel` (the
+        predecessor, as for a call of a member), the members its body calls are parameters of the hoisted body"""
+        if self.group is None:
+            return FnTr4.for_iter(self, e, it, ity, enum)
+        sig = self.iter_sig(ity)
+        self.uses_fuel = True
+        M = self.assigned(e)
+        for m in M:
+            if self.lookup(m) == ("writer",):
+                raise Unsupported("writer used inside a loop")
+        pre, itt, _ = self.ex(it, ity)
+        item_ty = sig["ret"][1]
+        elem_ty = ("tuple", (("int", "usize"), item_ty)) if enum else item_ty
+        elem_lean = self.lt(elem_ty)
+        pat, binds = self.let_pattern(e.pat, elem_ty)
+        if re.fullmatch(r"[A-Za-z_][A-Za-z0-9_]*", pat):
+            head_param, head_lines = (pat, elem_lean), []
+        else:
+            head_param, head_lines = ("p__", elem_lean), ["let %s := p__" % pat]
+        sigma_parts = [self.lt(self.lookup(m)) for m in M]
+        sigma = "Unit" if not M else sigma_parts[0] if len(M) == 1 else "(" + " × ".join(sigma_parts) + ")"
+        outer_rho = self.cur_rho()
+        body_rho = "(Rs.LoopCtl %s %s)" % (outer_rho, sigma)
+        idents = self.idents_of(e.body)
+        frees = [n for n in self.visible() if n in idents and n not in M and self.lookup(n) != ("writer",)]
+        free_params = [(lname(n), self.lt(self.lookup(n))) for n in frees]
+        self.loop_stack.append(dict(M=M, rho=body_rho))
+        self.rec_stack.append([])
+        self.push()
+        try:
+            for n, bt in binds:
+                self.bind(n, bt)
+            lines, _, _, div = self.tr_block(e.body, "value", None)
+            if not div:
+                lines = lines + ["pure %s" % self.state_pack(M)]
+        finally:
+            self.pop()
+            recs = self.rec_stack.pop()
+            self.loop_stack.pop()
+        self.loop_count = getattr(self, "loop_count", 0) + 1
+        aux = "%s.loop%d" % (self.lean, self.loop_count)
+        params = ["(rec__%s : %s)" % (s["name"], s["lean_fn"]) for s in recs]
+        params += ["(%s : %s)" % p for p in free_params] + ["(%s : %s)" % head_param]
+        if not M:
+            params.append("(_ : Unit)")
+            st_lines = []
+        elif len(M) == 1:
+            params.append("(%s : %s)" % (lname(M[0]), sigma))
+            st_lines = []
+        else:
+            params.append("(st__ : %s)" % sigma)
+            st_lines = ["let %s := st__" % self.state_pack(M)]
+        head = "def %s %s : Ctl %s (Rs.Step %s) := Rs.loopStep do" % (aux, " ".join(params), outer_rho, sigma)
+        self.aux_defs.append([head] + ind(st_lines + head_lines + lines))
+        if self.rec_stack:
+            given = ["rec__%s" % s["name"] for s in recs]
+            for s in recs:
+                if s not in self.rec_stack[-1]:
+                    self.rec_stack[-1].append(s)
+        else:
+            given = ["(%s fuel)" % s["lean"] for s in recs]
+        call = "%s fuel %s %s %s (%s)" % ("Rs.forIterEnum" if enum else "Rs.forIter", sig["lean"], self.atom(itt),
+                                          self.state_pack(M), " ".join([aux] + given + [p[0] for p in free_params]))
+        if not M:
+            return pre + [call]
+        return pre + ["let %s ← %s" % (self.state_pack(M), call)]
+
+    def tr_stmt(self, s):
+        # `let x: Vec<_> = <expr>;`: the annotation only fixes the container, the element type is that of the expression
+        if s.kind == "let" and s.ty is not None and s.init is not None and self.has_infer_hole(s.ty):
+            s = N("let", pat=s.pat, ty=None, init=s.init)
+        return FnTr4.tr_stmt(self, s)
+
+    def has_infer_hole(self, t):
+        if isinstance(t, tuple):
+            if t == ("named", "_"):
+                return True
+            return any(self.has_infer_hole(x) for x in t)
+        return False
+
     def tr_assign(self, e):
         # `b[i] op= x` on a byte array with a literal index and a literal operand: `b[i] = b[i] op x`
         lhs = strip(e.lhs)
@@ -112,7 +210,95 @@ class FnTr5b(FnTr4):
                       then=e.then, els=e.els)
         return FnTr4.ctl(self, e, mode, want)
 
+    def ctl_match(self, e, mode, want, M):
+        # `match (f(..), g(..)) { (Ok(a), Ok(b)) => .., _ => .. }` on calls of translated functions without `&mut`
+        # parameters: both calls are evaluated (in order), the error values are dropped
+        scrut = e.scrut
+        while scrut.kind == "paren":
+            scrut = scrut.e
+        if scrut.kind == "tuple" and len(scrut.items) >= 2 and all(strip(x).kind in ("call", "mcall") for x in scrut.items):
+            sigs = [self.callee_sig(strip(x)) for x in scrut.items]
+            if all(sg is not None and sg["ret"][0] == "res" and not sg.get("mut") and not sg.get("writer") and not sg.get("fuel") for sg in sigs):
+                def conv(p):
+                    if p.kind == "p_ctor" and p.path == ["Ok"] and len(p.args) == 1:
+                        return N("p_ctor", path=["Some"], args=p.args)
+                    if p.kind == "p_ctor" and p.path == ["Err"] and len(p.args) == 1 and p.args[0].kind == "p_wild":
+                        return N("p_path", path=["None"])
+                    if p.kind == "p_wild":
+                        return p
+                    raise Unsupported("pattern not in the subset for a match on a tuple of Results")
+                arms = []
+                for a in e.arms:
+                    if a.guard is not None:
+                        raise Unsupported("guard on a match on a tuple of Results")
+                    if a.pat.kind == "p_wild":
+                        pat = a.pat
+                    elif a.pat.kind == "p_tuple" and len(a.pat.items) == len(scrut.items):
+                        pat = N("p_tuple", items=[conv(q) for q in a.pat.items])
+                    else:
+                        raise Unsupported("pattern not in the subset for a match on a tuple of Results")
+                    arms.append(N("arm", pat=pat, guard=None, body=a.body))
+                e = N("match", scrut=N("tuple", items=[N("res_as_opt", e=strip(x)) for x in scrut.items]), arms=arms)
+        return FnTr4.ctl_match(self, e, mode, want, M)
+
+    def pure_closure(self, c, arg_ty, want):
+        """a closure `|pat| expr` whose body is a pure expression of the subset -> (Lean `fun`, result type)"""
+        if c.kind != "closure" or len(c.params) != 1:
+            raise Unsupported("closure shape not in the subset")
+        pat, binds = self.let_pattern(c.params[0], arg_ty)
+        self.push()
+        save = self.tmp
+        try:
+            for n, bt in binds:
+                self.bind(n, bt)
+            ls, t, ty = self.ex(c.body, want)
+        finally:
+            self.pop()
+        if ls:
+            self.tmp = save
+            raise Unsupported("closure whose body is not a pure expression")
+        ty = self.default_flex(ty) if R.is_flex(ty) else ty
+        return "(fun %s => %s)" % (pat, t), ty
+
+    def ex_mcall(self, e, want):
+        # `<iterator struct>.filter(|p| c).map(|p| x).collect()`: the items are collected (`Rs.collectIter`, bounded by
+        # the function's fuel), then filtered and mapped with the (pure) closures
+        if e.name == "collect" and not e.args:
+            chain, cur = [], strip(e.recv)
+            while cur.kind == "mcall" and cur.name in ("filter", "map") and len(cur.args) == 1:
+                chain.append((cur.name, cur.args[0]))
+                cur = strip(cur.recv)
+            ity = self.peek_type(cur) if chain else None
+            sig = self.iter_sig(ity) if ity is not None else None
+            if sig is not None:
+                self.uses_fuel = True
+                pre, itt, _ = self.ex(cur, ity)
+                item_ty = sig["ret"][1]
+                items = self.fresh()
+                lines = pre + ["let %s ← Rs.collectIter fuel %s %s" % (items, sig["lean"], self.atom(itt))]
+                term = items
+                for kind, c in reversed(chain):
+                    if kind == "filter":
+                        fn, rty = self.pure_closure(c, item_ty, ("bool",))
+                        if rty != ("bool",):
+                            raise Unsupported("`.filter()` closure of type %s" % R4.tystr4(rty))
+                        term = "(List.filter %s %s)" % (fn, term)
+                    else:
+                        fn, rty = self.pure_closure(c, item_ty, None)
+                        self.need_concrete(rty)
+                        term = "(List.map %s %s)" % (fn, term)
+                        item_ty = rty
+                return lines, term, ("vec", item_ty)
+        return self.ex_mcall0(e, want)
+
     def ex_bin(self, e, want):
+        if e.op in ("==", "!="):
+            lt_ = self.peek_type(e.l)
+            if lt_ is not None and lt_[0] == "named":
+                sg = self.find_sig(lt_[1], "eq")
+                if sg is not None and sg.get("trait") == "PartialEq" and not sg.get("fuel"):
+                    ls, t, ty = self.user_call(sg, [e.r], recv=self.ex(e.l, lt_)[:2])
+                    return ls, (t if e.op == "==" else "(!%s)" % self.atom(t)), ("bool",)
         if e.op in ("&", "|", "^"):
             save = self.tmp
             ls, lt, rt, ty = self.pair(e.l, e.r, want if (want is not None and want[0] == "int") else None)
@@ -192,6 +378,43 @@ class FnTr5b(FnTr4):
         s0 = N("expr", e=node, semi=False)
         return N("block", stmts=[s0] + body.stmts[1:], tail=body.tail)
 
+    def translate(self):
+        """a hoisted loop body that needs the function's `fuel` (it calls a fuel-taking function that is not a member of
+        the group, or collects an iterator) takes it as its first parameter"""
+        out, lines = FnTr4.translate(self)
+        blocks, cur = [], []
+        for l in out:
+            if l == "":
+                if cur:
+                    blocks.append(cur)
+                cur = []
+            else:
+                cur.append(l)
+        if cur:
+            blocks.append(cur)
+        changed = True
+        while changed:
+            changed = False
+            for b in blocks:
+                m = re.match(r"def (\S+) ", b[0])
+                if not m:
+                    continue
+                name = m.group(1)
+                if "(fuel : Nat)" in b[0] or not any(re.search(r"\bfuel\b", l) for l in b[1:]):
+                    continue
+                b[0] = b[0].replace("def %s " % name, "def %s (fuel : Nat) " % name, 1)
+                site = re.compile(r"\(%s(?=[ )])" % re.escape(name))
+                for b2 in blocks:
+                    for i in range(1, len(b2)):
+                        b2[i] = site.sub("(%s fuel" % name, b2[i])
+                for i in range(len(lines)):
+                    lines[i] = site.sub("(%s fuel" % name, lines[i])
+                changed = True
+        out2 = []
+        for b in blocks:
+            out2 += b + [""]
+        return out2, lines
+
     def translate0(self):
         if self.name not in TEXT_CHAIN and self.name not in TEXT_UNIT:
             return FnTr4.translate0(self)
@@ -206,7 +429,7 @@ class FnTr5b(FnTr4):
         for n, t in self.params:
             self.bind(n, t)
             binders.append("(%s : %s)" % (lname(n), self.lt(t)))
-        if self.name in TEXT_CHAIN and (self.ret[0] != "res" or self.mutparams):
+        if self.name in TEXT_CHAIN and self.mutparams:
             raise Unsupported("text prologue in a function of this shape")
         if self.name in TEXT_UNIT and (self.ret != ("unit",) or not self.mutparams or self.group is not None):
             raise Unsupported("text prologue in a function of this shape")
@@ -307,6 +530,18 @@ def generate(repo, prev_text):
         if not hits:
             status[key] = ("unsupported: cannot read %s: %s" % (file, world.file_errors[file])) if file in world.file_errors else "missing"
             continue
+        if len(hits) > 1 and (file, impl, name) in SELECT:
+            def sigtext(it_):
+                out = []
+                for t in it_["toks"]:
+                    if t.k == "p" and t.v == "{":
+                        break
+                    out.append(str(t.v))
+                return " ".join(out)
+            hits = [h for h in hits if re.search(SELECT[(file, impl, name)], sigtext(h))]
+            if not hits:
+                status[key] = "missing"
+                continue
         if len(hits) > 1:
             status[key] = "unsupported: defined more than once"
             continue
